@@ -201,6 +201,12 @@ static void sweep_child(const void *job, size_t n) {
 		int step = thorough ? 1 : 1;
 		for (int s = -127; s <= 127; s += step) { cmd_speed(train, s, to); if (res_nviol() > 3) goto out; }
 		cmd_speed(train, 1000, to); cmd_speed(train, -1000, to); cmd_speed(train, 0, to);
+		/* out-of-range values far from the boundary: every value up to +-1300 on the first track output (values whose low byte or
+		 * low 16 bits look like a legal speed), and the same residues around 2^15, 2^16, 2^31 */
+		if (b0 == 0 && t < 2) { for (int s = 128; s <= 1300; s++) { cmd_speed(train, s, to); cmd_speed(train, -s, to); if (res_nviol() > 3) goto out; }
+			static const long BASE[] = {32768, 65536, 16777216, 2147483392L /* 2^31 - 256 */};
+			for (int k = 0; k < 4; k++) for (int r = 0; r <= 255; r += 5) { long v = BASE[k] + r; if (v <= 2147483647L) cmd_speed(train, (int) v, to); cmd_speed(train, (int) -v, to); if (res_nviol() > 3) goto out; }
+			cmd_speed(train, 2147483647, to); cmd_speed(train, -2147483647 - 1, to); cmd_speed(train, 0, to); }
 		for (int l = -10; l <= 10; l++) { cmd_calibrated(train, l, to); if (res_nviol() > 3) goto out; }
 		cmd_estop(train, to); cmd_speed(train, 0, to); cmd_speed(train, -5, to); cmd_speed(train, 0, to); cmd_estop(train, to);
 		static const char *PER[] = {"head_light", "cabin_light", "horn", "light", "nosuch", NULL};
